@@ -274,6 +274,7 @@ class Node:
         self.known = set()  # signer ids whose signatures its state should contain
         self.signed = False
         self.online = True
+        self.tainted = False  # accepted a message that was corrupted / foreign / from a tainted node: its state is garbage-in
 
 
 class Ceremony:
@@ -319,7 +320,13 @@ class Ceremony:
         raw = node.psbt.serialize()
         node.durable = raw
         node.history.append(raw)
-        self.check_emitted(raw, node.name)
+        if not node.tainted:
+            # after a node accepted corrupted metadata that nothing in the PSBT commits to (e.g. a witness-UTXO amount), what it
+            # combines and emits is garbage-in/garbage-out: receivers still reject bad signatures at load (Q5) and nothing invalid
+            # is extracted (Q4), but the codec fixed point is only demanded of nodes that saw clean messages
+            self.check_emitted(raw, node.name)
+        else:
+            self.tr.probe("emissions_of_tainted_nodes")
         return raw
 
     # ---- coordinator start
@@ -493,7 +500,7 @@ class Ceremony:
             return
         raw = src.durable
         known = set(src.known)
-        clean = True
+        clean = not src.tainted
         if st.get("stale") and len(src.history) >= 2:
             raw = src.history[max(0, len(src.history) - 1 - st["stale"])]
             tr.fault("stale")
@@ -584,6 +591,7 @@ class Ceremony:
             return
         if not clean:
             self.tainted = True
+            dst.tainted = True
             tr.probe("unclean_message_accepted")
         if known is None:
             # stale version: derive which signers it contains from the bytes
@@ -989,7 +997,8 @@ class Ceremony:
         try:
             fin = PSBT.parse(BytesIO(before), network="mainnet")
             fin.finalize()
-            self.check_emitted(fin.serialize(), c.name + "(finalised)")
+            if not c.tainted:
+                self.check_emitted(fin.serialize(), c.name + "(finalised)")
             ftx = fin.final_tx()
             out = "extracted"
         except (SimDeadlock, Violation):
@@ -1007,7 +1016,7 @@ class Ceremony:
             except Exception as e:
                 after = None
                 fail("C10", "Q1", "serialize_after_extract_raised", f"serialize() after final_tx() raised {type(e).__name__}: {e}")
-            if after is not None:
+            if after is not None and not c.tainted:
                 self.check_emitted(after, c.name + "(after extraction)")
         tr.ev(c.name, "finalize", f"{out}|sigs={per_input}|m={s.m}")
         tr.state("fin", s.kind, s.m, s.n, tuple(per_input), out.split(":")[0], self.tainted)
